@@ -36,10 +36,18 @@ CHECKS = {
         text="Bounded symbolic proof over the real container operators (+, sum(), *, ==), Indexer (int / slice / iteration, selection enumerated by the solver) and constructor shape checks: element-wise sums/products, invariance of sampled estimates under scaling, equality <=> structural equality, selections equal numpy slicing and commute with summation and sampling, malformed shapes/operands raise.",
         note=_REAL + " Non-contiguous fancy selections outside the claim.",
         technique="symbolic execution of real numpy code on object arrays of z3 reals + SMT discharge per path; selections as solver choices"),
+    "C07": dict(level="model_checking", ref="DESIGN.md 4/C07",
+        text="One inductive step instead of histories: from every cache state satisfying the invariant (trees.pkl built with the binning stored in the binning file: absent / unbinned / binned with symbolic edges and either closed side) and every request (unbinned / symbolic edges / closed side / force), the real BinnedTrees.build/__init__/binning_equal/Binning.__eq__/trees run symbolically on an in-memory file system; z3 proves the trees a measurement loads were built with exactly the requested binning and that the invariant holds again. Plus exhaustive enumeration of all 3-4 step histories through two Catalog handles on one cache.",
+        note="File system / pickle modelled in memory (vf.stubs.fsmodel); build_trees replaced by a token recording its binning; edges modelled as reals; leafsize and external edits of the cache outside the claim.",
+        technique="symbolic execution of the real cache logic over a modelled file system, inductive invariant, z3 discharge; finite histories as solver choices", ),
+    "C08": dict(level="model_checking", ref="DESIGN.md 4/C08",
+        text="The real cache-writing code (BinnedTrees.build, CatalogWriter/PatchWriter create and overwrite, Patch metadata, CorrData.to_files) runs on a file-system model whose crash index, surviving prefix of buffered writes and rmtree order are solver choices (one path per crash state, all enumerated); the real recovery code then runs on each surviving state and must raise or behave as completed / never started.",
+        note="Crash = process kill (ordered persistence, buffered writes survive as any item prefix, no torn single write, no power-loss reordering); HDF5 writes not covered; data are small concrete arrays (the quantifier is the crash point); replays materialise the model state in a real directory.",
+        technique="bounded model checking of the real I/O code against an in-memory file-system crash model; crash points enumerated as z3-checked choices"),
     "C10": dict(level="other", ref="DESIGN.md 4/C10",
         text="Bounded symbolic proof over the real build_trees (np.digitize + groupby + AngularTree) and _redshift_histogram: redshifts, weights and bin edges are solver variables, so values exactly on any inner/outer edge or outside the range are covered; z3 proves per-bin membership, record counts, weight sums and histogram counts equal the (lo,hi] / [lo,hi) rule for both closed sides, weighted and unweighted, and that empty bins or an empty patch raise nothing; trees and histogram agree.",
         note=_REAL + " KDTree replaced by a container; digitize/histogram/argsort/unique kernels re-implemented per numpy's documented rules (conformance-tested per run); objects <= 4, bins <= 3.",
         technique="symbolic execution of real numpy code on object arrays of z3 reals (forking comparisons) + SMT discharge per path"),
 }
 NOT_APPLICABLE = [dict(property_id=p, reason="check not built yet in this session (work in progress; see DESIGN.md section 8 build order)") for p in
-    ["C02","C05","C06","C07","C08","C09","C11","C12","C13","C16","C18"]]
+    ["C02","C05","C06","C09","C11","C12","C13","C16","C18"]]
